@@ -344,6 +344,65 @@ class Inliner:
                 blocks.append(_shift_block(cb, offL, offB, t["dest"], t["target"], line))
             bb["term"] = {"k": "goto", "target": offB, "line": line, "inlined_call": self.norm(callee["id"])}
             spliced.append(self.norm(callee["id"]))
+        # second pass: a closure handed to a spliced GENERIC helper (`fn with_slot<R>(&self, f: impl FnOnce(..) -> R)`) is called there
+        # through the type parameter; once the helper sits in its caller the closure is known - the local the call goes through was
+        # bound (by the parameter binding above) to a closure value of this body
+        if spliced and depth > 0:
+            def closure_of(local, hops=0):
+                if hops > 6:
+                    return None
+                ty = locals_[local]["ty"] if local < len(locals_) else {}
+                if ty.get("k") == "closure" and ty.get("def") in self.raw:
+                    return self.raw[ty["def"]]
+                srcs = []
+                for b_ in blocks:
+                    if b_["cleanup"]:
+                        continue
+                    for s_ in b_["stmts"]:
+                        if s_["k"] == "assign" and s_["lhs"] == [local]:
+                            srcs.append(s_["rv"])
+                if len(srcs) != 1:
+                    return None
+                rv = srcs[0]
+                if rv["k"] == "use" and rv["op"]["k"] in ("copy", "move") and len(rv["op"]["p"]) == 1:
+                    return closure_of(rv["op"]["p"][0], hops + 1)
+                if rv["k"] == "ref" and len(rv["p"]) == 1:
+                    return closure_of(rv["p"][0], hops + 1)
+                return None
+            i = n0
+            while i < len(blocks) and len(blocks) < 1500:
+                bb = blocks[i]
+                i += 1
+                t = bb["term"]
+                if bb["cleanup"] or t["k"] != "call":
+                    continue
+                f = t["fn"]
+                if f.get("k") != "def" or f.get("trait") not in ("std::ops::Fn", "std::ops::FnMut", "std::ops::FnOnce"):
+                    continue
+                if not t["args"] or t["args"][0].get("k") not in ("copy", "move") or len(t["args"][0]["p"]) != 1:
+                    continue
+                callee = closure_of(t["args"][0]["p"][0])
+                if callee is None or callee["id"] in stack or callee["id"] == raw["id"] or len(callee["blocks"]) > MAX_BLOCKS:
+                    continue
+                cin = self.inline(callee, depth - 1, stack + (raw["id"],))
+                if len(cin["blocks"]) + len(blocks) > 1500:
+                    continue
+                offL, offB = len(locals_), len(blocks)
+                locals_.extend(cin["locals"])
+                line = t.get("line", 0)
+                args = t["args"]
+                binds = [(offL + 1, args[0])]
+                if len(args) >= 2 and args[1].get("k") in ("copy", "move"):
+                    tp = args[1]["p"]
+                    for k in range(cin["argc"] - 1):
+                        binds.append((offL + 2 + k, {"k": "move", "p": tp + [".%d" % k]}))
+                for (l, op) in binds:
+                    o = {kk: vv for kk, vv in op.items() if kk != "t"}
+                    bb["stmts"].append({"k": "assign", "lhs": [l], "line": line, "rv": {"k": "use", "op": o}})
+                for cb in cin["blocks"]:
+                    blocks.append(_shift_block(cb, offL, offB, t["dest"], t["target"], line))
+                bb["term"] = {"k": "goto", "target": offB, "line": line, "inlined_call": self.norm(callee["id"])}
+                spliced.append(self.norm(callee["id"]))
         if spliced:
             _fold_known_discriminants(blocks)
         out = dict(raw)
